@@ -14,6 +14,7 @@ inductive Kind where
   | error (e : Nat)     -- ErrorFuture(e)
   | taskOk (v : Nat)    -- AsyncTask whose body returns v without yielding
   | taskErr (e : Nat)   -- AsyncTask whose body raises e
+  | lazySelfSet (v w : Nat)  -- Future(provider) whose provider completes the future itself with v, then returns w
   deriving Repr, DecidableEq, Inhabited
 
 inductive Outc where
@@ -99,6 +100,11 @@ def compute (f : Fut) : Fut × List Cb × Option Exc :=
     let (f', cbs) := complete { f with runs := f.runs + 1 } (.err e)
     (f', cbs, some (.user e))
   | .const _ | .error _ => (f, [], some .notImplemented)
+  | .lazySelfSet v _ =>
+    -- the provider calls set_value(v) on the future (subscribers notified with v); `set_value(provider())` then raises
+    -- FutureIsAlreadyComputed, the handler's set_error raises it again: the first outcome stays, the call raises
+    let (f', cbs) := complete { f with runs := f.runs + 1 } (.val v)
+    (f', cbs, some .alreadyComputed)
   | .taskOk v =>
     if f.alive then
       let (f', cbs) := complete { f with runs := f.runs + 1 } (.val v)
@@ -194,11 +200,13 @@ def notifiedAll (subs : List Nat) (cbs : List Cb) (o : Outc) : Bool :=
   cbs.map (·.sub) == subs && cbs.all (fun c => c.seen == some o)
 
 /-- is the result of a read consistent with outcome `o`? (`error()` may also raise the error it reports
-    when this very call ran the computation - Future._compute re-raises) -/
+    when this very call ran the computation - Future._compute re-raises; and the call that ran a computation during
+    which somebody else completed the future raises FutureIsAlreadyComputed while the FIRST outcome stays) -/
 def readOk (op : Op) (r : Res) (o : Outc) (fresh : Bool) : Bool :=
   match op with
-  | .value | .call => r == readValue o
+  | .value | .call => r == readValue o || (fresh && r == .raised .alreadyComputed)
   | .error => r == readError o || (fresh && (match o with | .err e => r == .raised (.user e) | _ => false))
+               || (fresh && r == .raised .alreadyComputed)
   | _ => false
 
 /-- one observation against the watch state; returns the clause that fails -/
